@@ -260,8 +260,8 @@ pub fn property() -> Property {
         ],
         health: vec![("sched.check_pools", "observed-different-interleavings", 300)],
         subs: vec![
-            prop_sub("sched.check_pools", 1_200, 40_000, |_| sched_case(), oracle_check).shards(8),
-            prop_sub("sched.vm_compute_pools", 1_500, 50_000, |_| vm_sched_case(), oracle_vm).shards(8),
+            prop_sub("sched.check_pools", 3_600, 40_000, |_| sched_case(), oracle_check).shards(8),
+            prop_sub("sched.vm_compute_pools", 4_500, 50_000, |_| vm_sched_case(), oracle_vm).shards(8),
         ],
     }
 }
